@@ -93,6 +93,11 @@ def gen_entry(rng):
     mask = ((1 << bits) - 1) ^ ((1 << (bits - plen)) - 1)
     fmt = v4 if fam == 4 else v6
     r = rng.random()
+    if r < 0.05:
+        # a single address that LOOKS like a network: every low bit zero (2001:db8::, fe80::, ::, 10.0.0.0) - written
+        # without a prefix length it is one host
+        round_addr = rng.choice([0x20010DB8 << 96, 0xFE80 << 112, 0, 0x2001 << 112, (0x20010DB8 << 96) | (1 << 80)]) if fam == 6 else rng.choice([10 << 24, 0, (192 << 24) | (168 << 16), 127 << 24])
+        return fmt(round_addr), "single"
     if r < 0.2:
         return fmt(addr), "single"
     if r < 0.27 and plen < bits:
